@@ -99,6 +99,7 @@ def main(argv=None):
     ap.add_argument('--replay')
     ap.add_argument('--unit', action='append')
     ap.add_argument('--keep', action='store_true')
+    ap.add_argument('--variant', action='append')
     ap.add_argument('--solver', default='minisat')
     ap.add_argument('--no-evidence', action='store_true')
     ap.add_argument('--list', action='store_true')
@@ -194,6 +195,8 @@ def main(argv=None):
         for u in order:
             for v in u['variants']:
                 if v.get('tier', 'quick') == 'thorough' and args.tier != 'thorough':
+                    continue
+                if args.variant and v['name'] not in args.variant:
                     continue
                 jobs.append(ex.submit(job, u, v))
         for j in jobs:
@@ -329,7 +332,7 @@ def main(argv=None):
         if rc == 0:
             rc = 2
     wall = time.time() - t0
-    if not args.no_evidence and not args.unit:
+    if not args.no_evidence and not args.unit and not args.variant:
         ev = {
             'property_id': prop, 'tier': args.tier, 'seed': seed, 'level': 'proof',
             'coverage': {
